@@ -28,6 +28,10 @@ type limitStep struct {
 	Frags []int `json:"frags"`
 	Comp  bool  `json:"comp"`
 	Final bool  `json:"final"` // the DEFLATE stream of the message ends with a BFINAL=1 block
+	// Mid: after MidAfter bytes of the message have been handed over the application calls SetReadLimit(MidLimit)
+	Mid      bool  `json:"mid"`
+	MidAfter int   `json:"midAfter"`
+	MidLimit int64 `json:"midLimit"`
 	Exp   struct {
 		O         string `json:"o"`
 		N         int    `json:"n"`
@@ -156,13 +160,22 @@ func runLimitCase(rep *Report, lc limitCase, rng *rand.Rand) {
 			handed := 0
 			ok := true
 			var rerr error
+			midDone := !st.Mid
 			for {
-				n, err := r.Read(buf)
+				b := buf
+				if !midDone && st.MidAfter-handed < len(b) {
+					b = b[:st.MidAfter-handed]
+				}
+				n, err := r.Read(b)
 				if n > 0 {
-					if handed+n > len(plains[i]) || !bytes.Equal(buf[:n], plains[i][handed:handed+n]) {
+					if handed+n > len(plains[i]) || !bytes.Equal(b[:n], plains[i][handed:handed+n]) {
 						ok = false
 					}
 					handed += n
+				}
+				if !midDone && handed >= st.MidAfter {
+					midDone = true
+					c.SetReadLimit(st.MidLimit)
 				}
 				if err != nil {
 					rerr = err
@@ -175,6 +188,9 @@ func runLimitCase(rep *Report, lc limitCase, rng *rand.Rand) {
 				return
 			}
 			switch st.Exp.O {
+			case "open": // a limit changed under the message, and the two limits disagree about it: nothing further is demanded
+				failed = true
+				return
 			case "deliver":
 				if rerr != io.EOF || handed != len(plains[i]) {
 					rep.miss("limit-message-within-limit-not-delivered", lc, fmt.Sprintf("step %d: size %d limit %d: handed %d err %v", i, len(plains[i]), st.Limit, handed, rerr))
